@@ -276,4 +276,40 @@ def requiredSize (value stride border upscale : Int) (nearest : Bool) : Int :=
 def getIfmAreaRequired (ofmH ofmW sy sx areaH areaW upscale : Int) (nearest : Bool) : Int × Int :=
   (requiredSize ofmW sx areaW upscale nearest, requiredSize ofmH sy areaH upscale nearest)
 
+/-! ## `Shape4D` arithmetic (`ethosu/vela/shape4d.py`) on `Coord`
+
+Component-wise helpers of the named tuple `Shape4D(batch, height, width, depth)`.  `//` and `%` are Python's
+floor operations, which for a positive divisor are Lean's `Int` `/` and `%`; the models are meant for
+positive divisors only (a zero divisor raises in Python).  Tied to the source text by `Props/C10Src.lean`. -/
+
+/-- `numeric_util.round_up(a, b)` -/
+def roundUpI (a b : Int) : Int := (a + b - 1) / b * b
+
+/-- `numeric_util.round_up_divide(a, b)` -/
+def roundUpDivI (a b : Int) : Int := (a + b - 1) / b
+
+/-- `Shape4D._clip_len(pos, length, size)`: length of `[pos, pos + length)` cut to `[0, size)` at both ends
+    (may be negative when the interval lies outside) -/
+def clipLen (pos len size : Int) : Int :=
+  let len' := if pos < 0 then len + pos else len
+  let pos' := if pos < 0 then 0 else pos
+  min (pos' + len') size - pos'
+
+def Coord.map2 (f : Int → Int → Int) (a b : Coord) : Coord := ⟨f a.n b.n, f a.h b.h, f a.w b.w, f a.c b.c⟩
+
+/-- `Shape4D.round_up(lhs, rhs)` -/
+def shapeRoundUp (a b : Coord) : Coord := Coord.map2 roundUpI a b
+/-- `Shape4D.div_round_up(self, rhs)` -/
+def shapeDivRoundUp (a b : Coord) : Coord := Coord.map2 roundUpDivI a b
+/-- `Shape4D.__add__`, `__sub__`, `__floordiv__`, `__mod__` -/
+def shapeAdd (a b : Coord) : Coord := Coord.map2 (· + ·) a b
+def shapeSub (a b : Coord) : Coord := Coord.map2 (· - ·) a b
+def shapeFloordiv (a b : Coord) : Coord := Coord.map2 (· / ·) a b
+def shapeMod (a b : Coord) : Coord := Coord.map2 (· % ·) a b
+/-- `Shape4D.clip(self, offset, sub_shape)` -/
+def shapeClip (self offset sub : Coord) : Coord :=
+  ⟨clipLen offset.n sub.n self.n, clipLen offset.h sub.h self.h, clipLen offset.w sub.w self.w, clipLen offset.c sub.c self.c⟩
+/-- `Shape4D.elements()` -/
+def shapeElements (a : Coord) : Int := a.n * a.w * a.h * a.c
+
 end VelaVerif.Box
